@@ -1,9 +1,10 @@
 (* C10 — decoders on malformed chunk data.  Statements only; proofs live in
-   theories/Codec/CSegDecodeProofs.v (and CSegImplProofs.v for the round trip).
+   theories/Codec/CSegDecodeProofs.v (and CSegImplProofs.v for the round trip
+   and the soundness theorem).
    "Never hangs" is by construction: every model function is a structural
    recursion (Coq accepts no other kind without fuel, and none is used). *)
 From Coq Require Import NArith ZArith List Lia.
-From NGS Require Import Val Ints Words Arr4 CSegEncode CSegDecode RawCodec JpegGlue
+From NGS Require Import Val Ints Words Arr4 CSegEncode CSegSpec CSegDecode RawCodec JpegGlue
      CSegDecodeProofs CSegImplProofs.
 Import ListNotations.
 Open Scope N_scope.
@@ -35,30 +36,27 @@ Theorem C10_cseg_decode_shape : forall dt nc g cx cy cz buf a,
 Proof. exact cseg_decode_shape. Qed.
 Print Assumptions C10_cseg_decode_shape.
 
-(* on the guard (no channel buffer cut short by the next channel's offset) no
-   exception other than InvalidFormatError escapes, for every byte string *)
-Theorem C10_cseg_decode_no_crash_on_guard : forall dt nc g cx cy cz buf,
-  cseg_decode_guard nc g cx cy cz buf = true ->
-  forall k, cseg_decode dt nc g cx cy cz buf <> Crash k.
-Proof. exact cseg_decode_no_crash_on_guard. Qed.
-Print Assumptions C10_cseg_decode_no_crash_on_guard.
-
-(* outside the guard the faithful model does escape: struct.error *)
-Theorem C10_cseg_decode_refuted :
-  exists dt nc g cx cy cz buf,
-    cseg_decode_guard nc g cx cy cz buf = false /\
-    cseg_decode dt nc g cx cy cz buf = Crash StructError.
-Proof. exact cseg_decode_refuted. Qed.
-Print Assumptions C10_cseg_decode_refuted.
-
-(* and struct.error is the ONLY other exception, on all inputs (np.frombuffer
-   is never reached with a misaligned length, the table extent formula never
-   produces a negative slice bound that wraps around, ...) *)
-Theorem C10_cseg_decode_crash_is_struct_error : forall dt nc g cx cy cz buf k,
+(* For EVERY byte string, chunk size, non-zero block size, channel count and
+   label type: the decoder returns an array of exactly the requested shape (and
+   that many entries) or the documented format error.  No guard: struct.error,
+   np.frombuffer's ValueError, IndexError ... cannot escape (the block-size-0
+   ZeroDivisionError is outside the format: block sizes are positive). *)
+Theorem C10_cseg_decode_total : forall dt nc g cx cy cz buf,
   g_bx g <> 0 /\ g_by g <> 0 /\ g_bz g <> 0 ->
-  cseg_decode dt nc g cx cy cz buf = Crash k -> k = StructError.
-Proof. exact cseg_decode_crash_is_struct_error. Qed.
-Print Assumptions C10_cseg_decode_crash_is_struct_error.
+  cseg_decode dt nc g cx cy cz buf = FormatErr \/
+  exists a, cseg_decode dt nc g cx cy cz buf = Ok a /\
+            same_shape a nc cz cy cx /\ lenN (a_data a) = nc * cz * cy * cx.
+Proof. exact cseg_decode_total. Qed.
+Print Assumptions C10_cseg_decode_total.
+
+(* ... and an accepted byte string is never decoded to anything but what the
+   format says: every returned voxel equals the specification decoder's value *)
+Theorem C10_cseg_decode_sound : forall dt nc g cx cy cz buf a,
+  cseg_decode dt nc g cx cy cz buf = Ok a ->
+  forall c z y x, c < nc -> z < cz -> y < cy -> x < cx ->
+    spec_value dt buf cy cx (g_bx g) (g_by g) (g_bz g) c z y x = Some (get4 a c z y x).
+Proof. exact cseg_decode_sound. Qed.
+Print Assumptions C10_cseg_decode_sound.
 
 (* valid compressed_segmentation data (anything the encoder produces) is never
    rejected and decodes to the encoded chunk *)
@@ -68,27 +66,24 @@ Theorem C10_cseg_valid_never_rejected : forall dt nc g a buf,
 Proof. exact encode_impl_roundtrip. Qed.
 Print Assumptions C10_cseg_valid_never_rejected.
 
-(* --- JPEG glue, relative to what Pillow does (oracle argument): partial,
-   libjpeg itself is not modelled *)
-Theorem C10_jpeg_glue_on_guard_partial : forall nc cx cy cz r,
-  jpeg_guard nc r = true ->
+(* --- JPEG glue, relative to what Pillow does (oracle argument: open fails /
+   opens with a mode and size, then the pixel load fails / yields h*w*bands
+   samples): array of the requested shape or the format error.  Partial only
+   because Pillow/libjpeg themselves are not modelled. *)
+Theorem C10_jpeg_glue_total_partial : forall nc cx cy cz r,
+  pil_wf r ->
   jpeg_decode nc cx cy cz r = FormatErr \/
-  exists a, jpeg_decode nc cx cy cz r = Ok a /\ same_shape a nc cz cy cx.
-Proof. exact jpeg_glue_on_guard. Qed.
-Print Assumptions C10_jpeg_glue_on_guard_partial.
+  exists a, jpeg_decode nc cx cy cz r = Ok a /\ same_shape a nc cz cy cx /\
+            lenN (a_data a) = nc * cz * cy * cx.
+Proof. exact jpeg_glue_total. Qed.
+Print Assumptions C10_jpeg_glue_total_partial.
 
-(* Pillow opens the file with the expected mode but the pixel load fails:
-   the OSError escapes *)
-Theorem C10_jpeg_glue_refuted :
-  exists nc cx cy cz r, jpeg_guard nc r = false /\ jpeg_decode nc cx cy cz r = IOErr.
-Proof. exact jpeg_glue_refuted. Qed.
-Print Assumptions C10_jpeg_glue_refuted.
-
-(* non-vacuity of the guard: a valid two-channel file satisfies it *)
-Example C10_guard_example :
-  cseg_decode_guard 2 {| g_bx := 1; g_by := 1; g_bz := 1 |} 1 1 1
+(* both branches of the totality statement occur: a valid two-channel file
+   decodes, its truncation is the format error *)
+Example C10_total_example :
+  cseg_decode U32 2 {| g_bx := 1; g_by := 1; g_bz := 1 |} 1 1 1
     [2; 0; 0; 0;  5; 0; 0; 0;  2; 0; 0; 0;  3; 0; 0; 0;  7; 0; 0; 0;
-     2; 0; 0; 0;  3; 0; 0; 0;  9; 0; 0; 0] = true /\
+     2; 0; 0; 0;  3; 0; 0; 0] = FormatErr /\
   exists a, cseg_decode U32 2 {| g_bx := 1; g_by := 1; g_bz := 1 |} 1 1 1
     [2; 0; 0; 0;  5; 0; 0; 0;  2; 0; 0; 0;  3; 0; 0; 0;  7; 0; 0; 0;
      2; 0; 0; 0;  3; 0; 0; 0;  9; 0; 0; 0] = Ok a /\ a_data a = [7; 9].
